@@ -31,7 +31,7 @@ EXTRA_TREES = [
     {"a": "x", "b": "y", "s/a": "z", "s/é": "w", "s/t/a": "v"},
 ]
 LINKS = ["copy", "hardlink", "symlink", "default"]
-PATHS = ["object", "index", "lazy", "index-prefix", "index-update"]
+PATHS = ["object", "index", "lazy", "index-prefix", "index-update", "index-resave"]
 
 
 def trees(tier):
@@ -177,6 +177,21 @@ def one_exec(tree, kind, path, link, with_state, single=None, pre=False):
                         want_listing = {rel: ref.md5(b) for rel, b in files.items()}
                     idx = ibuild(src, LFS)
                     iupdate(idx, old)
+                elif path == "index-resave":
+                    # the index was saved once already; then the last file is rewritten (other bytes, other
+                    # length), its entry is refreshed in the SAME index object, and the index is saved again
+                    from dvc_data.index.build import build_entry
+
+                    idx = imd5(ibuild(src, LFS), state=state)
+                    isave(idx, odb=odb)
+                    last = sorted(files)[-1]
+                    files[last] = b"rewritten after the first save: " + files[last]
+                    write_tree(src, {last: files[last]})
+                    key = tuple(last.split("/"))
+                    ne = build_entry(os.path.join(src, *key), LFS, compute_hash=True)
+                    idx.add(DataIndexEntry(key=key, meta=ne.meta, hash_info=ne.hash_info))
+                    want = dict(files)
+                    want_listing = {rel: ref.md5(b) for rel, b in files.items()}
                 else:
                     idx = ibuild(src, LFS)
                 idx = imd5(idx, state=state)
@@ -218,6 +233,31 @@ def one_exec(tree, kind, path, link, with_state, single=None, pre=False):
                     viol.append((f"second-round-trip-differs/{path}", f"{sorted(walk_files(out2))} vs {sorted(want)}"))
             except Exception as e:  # noqa: BLE001
                 viol.append((f"second-round-trip-raises-{type(e).__name__}/{path}", repr(e)))
+            # ... and a third one into the second location again, after the user has wiped it
+            try:
+                import shutil
+
+                out3 = w.p("out", "again")
+                if os.path.isdir(out3) and not os.path.islink(out3):
+                    shutil.rmtree(out3)
+                elif os.path.lexists(out3):
+                    os.unlink(out3)
+                if path == "object" or (single is not None and path != "index"):
+                    checkout(out3, LFS, load(odb, obj.hash_info), odb, force=False, state=state)
+                elif path == "lazy":
+                    idx3 = DataIndex({(): DataIndexEntry(key=(), meta=Meta(isdir=True),
+                                                         hash_info=HashInfo("md5", obj.oid))})
+                    idx3.storage_map.add_cache(ObjectStorage((), odb))
+                    apply(compare(None, idx3), out3, LFS, storage="cache", state=state)
+                else:
+                    apply(compare(None, idx), out3, LFS, storage="cache", state=state)
+                if path == "index-prefix":
+                    out3 = os.path.join(out3, "ws")
+                if walk_files(out3) != want:
+                    viol.append((f"round-trip-into-a-wiped-location-differs/{path}",
+                                 f"{sorted(walk_files(out3))} vs {sorted(want)}"))
+            except Exception as e:  # noqa: BLE001
+                viol.append((f"round-trip-into-a-wiped-location-raises-{type(e).__name__}/{path}", repr(e)))
             if path == "index-prefix":
                 out = os.path.join(out, "ws")
             got = walk_files(out)
@@ -259,7 +299,7 @@ def run_case(case):
     tree, single = case.get("tree"), case.get("single")
     for kind in ("local", "base"):
         for path in PATHS:
-            if single is not None and path in ("lazy", "index-prefix", "index-update"):
+            if single is not None and path in ("lazy", "index-prefix", "index-update", "index-resave"):
                 continue
             for link in LINKS:
                 for ws, pre in ((False, False), (True, False), (False, True), (True, True)):
